@@ -291,10 +291,30 @@ def _hypothesis_shard(mod, facet, tier, seed, shard, count, stats):
             raise
 
 
+def enumerate_cases(mod, facet, cases, shard, nshards, stats, exhaustive=True):
+    """Runner helper: check every case of a finite enumeration (sharded)."""
+    for i, case in enumerate(cases):
+        if i % nshards != shard:
+            continue
+        info, violation, key = run_one(mod, facet, case)
+        if violation is not None:
+            if key is not None:
+                stats.known[key] = stats.known.get(key, 0) + 1
+                stats.evaluations += 1
+                continue
+            stats.note_failure(case, violation)
+            stats.exhaustive = False
+            return
+        nontrivial, labels = facet.classify(case, info)
+        stats.note_case(case, nontrivial, labels)
+    stats.exhaustive = exhaustive
+
+
 def replay_file(path):
     """Re-run one saved case without Hypothesis.  Returns exit code."""
     with open(path) as f:
         doc = json.load(f)
+    os.environ["VERIF_TIER_INTERNAL"] = doc.get("tier", "quick")
     mod = _load(doc["property"])
     facet = [f for f in mod.FACETS if f.name == doc["facet"]][0]
     info, violation, key = run_one(mod, facet, doc["case"])
@@ -340,6 +360,7 @@ def load_known_findings(prop):
 
 def run_property(prop, tier, seed, only_facets=None, budget_scale=1.0):
     t0 = time.time()
+    os.environ["VERIF_TIER_INTERNAL"] = tier
     setup_path()
     mod = _load(prop)
     violations = []  # replay paths
